@@ -98,7 +98,11 @@ def build_rows(case):
     if "nolabel_repeat" in T:
         del R[4][lab]
     if "no_maxpix" in T:
-        del R[7]["parameters"]
+        # no max-pixels: either no parameters at all, or another parameter only
+        if len(T) % 2:
+            del R[7]["parameters"]
+        else:
+            R[7]["parameters"] = "app=com.example.camera"
     if "deprecated" in T:
         R.append({"type": "subscriberid" if len(T) % 2 else "simserial", "name": "dep"})
     if "ext_nofilter" in T:
@@ -124,6 +128,8 @@ def build_rows(case):
             st["id_string"] = None
     if "noclean" in T:
         st["clean_text_values"] = "no"
+    if "allowdup" in T:
+        st["allow_choice_duplicates"] = "yes"
     if st:
         sheets.append({"name": "settings", "header": list(st), "rows": [list(st.values())]})
     return {"sheets": sheets}
